@@ -85,7 +85,7 @@ Theorem C08_walk_from_endpoint_terminates : forall owners ops,
   let gs := sgates (fst (exec (init owners) ops)) in
   (forall g x, lookup gs g = Some x -> kind_of x <> Transit ->
      (exists p, path_iter gs g = Some (Some p)) /\
-     (forall sender t, buf_send_at gs sender g t <> SOutOfFuel)) /\
+     (forall h sender t, buf_send_at gs h sender g t <> SOutOfFuel)) /\
   ~ In OOutOfFuel (snd (exec (init owners) ops)).
 Proof. intros owners ops. split; [intros g x; exact (reach_walk_terminates owners ops g x)|exact (script_no_fuel owners ops)]. Qed.
 Print Assumptions C08_walk_from_endpoint_terminates.
@@ -101,56 +101,83 @@ Theorem C08_mirror : forall owners ops g p,
 Proof. exact reach_mirror. Qed.
 Print Assumptions C08_mirror.
 
-(* a message sent on a non-transit gate g at time t by module [sender] yields
-   exactly one result: a delivery to the owner of the far end of g's chain, at
-   t + sum of the per-hop channel delays, with header sender / receiver /
-   last_gate = the far-end gate *)
-Theorem C08_delivered_once_to_far_owner : forall owners ops sender g x t,
+(* a message object carrying ANY header h (fresh, or stamped by an earlier leg)
+   sent on a non-transit gate g at time t by module [sender] yields exactly one
+   result: a delivery to the owner of the far end of g's chain, at t + sum of
+   the per-hop channel delays, with header sender = the module that performed
+   THIS send, receiver = the far owner, last_gate = the far-end gate *)
+Theorem C08_delivered_once_to_far_owner : forall owners ops h sender g x t,
   let gs := sgates (fst (exec (init owners) ops)) in
   lookup gs g = Some x -> kind_of x <> Transit ->
   exists p, path_iter gs g = Some (Some p) /\
     let far := last (map endpoint p) g in
-    buf_send_at gs sender g t =
+    buf_send_at gs h sender g t =
     SDelivered {| d_to := owner_of gs far; d_time := t + path_delay p;
                   d_sender := sender; d_receiver := owner_of gs far; d_last := far |}.
 Proof. exact reach_delivered. Qed.
 Print Assumptions C08_delivered_once_to_far_owner.
 
 (* the other direction: sent on the far end, the message reaches g's owner after the same total delay *)
-Theorem C08_both_directions : forall owners ops sender g p t,
+Theorem C08_both_directions : forall owners ops h sender g p t,
   let gs := sgates (fst (exec (init owners) ops)) in
   path_iter gs g = Some (Some p) ->
   let far := last (map endpoint p) g in
-  buf_send_at gs sender far t =
+  buf_send_at gs h sender far t =
   SDelivered {| d_to := owner_of gs g; d_time := t + path_delay p;
                 d_sender := sender; d_receiver := owner_of gs g; d_last := g |}.
 Proof. exact reach_both_directions. Qed.
 Print Assumptions C08_both_directions.
 
-(* whole scripts: the delivery log has exactly one entry per send, and the k-th
-   send (owner of g calls send_at(msg, g, t+d) at time t; d = 0 immediate,
-   d > 0 delayed) on a gate that is not transit in the final table is the
-   delivery described above *)
-Theorem C08_script_deliveries : forall owners ops k g t d x,
+(* relayed messages (the received object is sent on by the receiving module,
+   echoed back or forwarded onto another chain, at most [b] times): the legs of
+   one message form a chain in which every delivery names as sender the module
+   that performed that leg's send (the first: [cur]; each later one: the module
+   that received the previous leg), receiver = the module it was delivered to;
+   there are between 1 and b+1 legs, and each leg is buf_send_at applied to the
+   header the previous delivery left on the object *)
+Theorem C08_relay_header_per_leg : forall b gs rules h cur g t leg,
+  chain_ok cur (legs b gs rules h cur g t leg) /\
+  (1 <= length (legs b gs rules h cur g t leg) <= b + 1)%nat /\
+  legs b gs rules h cur g t leg =
+  (leg, buf_send_at gs h cur g t) ::
+  match buf_send_at gs h cur g t, b with
+  | SDelivered d, S b' =>
+      match find_rule rules (d_last d) with
+      | Some (g', dl) => legs b' gs rules (hdr_of d) (d_to d) g' (d_time d + dl) (leg + 1)
+      | None => []
+      end
+  | _, _ => []
+  end.
+Proof. intros. split; [apply legs_sender_chain|split; [apply legs_length|apply legs_unfold]]. Qed.
+Print Assumptions C08_relay_header_per_leg.
+
+(* whole scripts: the delivery log has exactly one entry (list of legs) per
+   send, and the k-th send (owner of g calls send_at(fresh msg, g, t+d) at time
+   t; d = 0 immediate, d > 0 delayed; relay budget b) on a gate that is not
+   transit in the final table starts with the delivery described above, followed
+   by at most b relay legs whose headers name their own senders *)
+Theorem C08_script_deliveries : forall owners ops k g t d b x,
   let gs := sgates (fst (exec (init owners) ops)) in
-  nth_error (sends_of gs ops) k = Some (g, t, d) ->
+  let rules := rules_of gs ops in
+  nth_error (sends_of gs ops) k = Some (g, t, d, b) ->
   lookup gs g = Some x -> kind_of x <> Transit ->
-  length (map (send_one gs) (sends_of gs ops)) = length (sends_of gs ops) /\
-  exists p, path_iter gs g = Some (Some p) /\
+  length (map (send_one gs rules) (sends_of gs ops)) = length (sends_of gs ops) /\
+  exists p rest, path_iter gs g = Some (Some p) /\
     let far := last (map endpoint p) g in
-    nth_error (map (send_one gs) (sends_of gs ops)) k =
-    Some (SDelivered {| d_to := owner_of gs far; d_time := t + d + path_delay p;
-                        d_sender := owner_of gs g; d_receiver := owner_of gs far; d_last := far |}).
+    nth_error (map (send_one gs rules) (sends_of gs ops)) k =
+    Some ((0, SDelivered {| d_to := owner_of gs far; d_time := t + d + path_delay p;
+                            d_sender := owner_of gs g; d_receiver := owner_of gs far; d_last := far |}) :: rest) /\
+    chain_ok (owner_of gs far) rest /\ (length rest <= N.to_nat b)%nat.
 Proof. exact script_deliveries. Qed.
 Print Assumptions C08_script_deliveries.
 
 (* Non-vacuity: a 3-hop chain g3 - g1 - g0 - g2 over modules 0,1,2,0 built
    middle-first with mixed orientation (so g1 and g0 hold their onward
    direction in slot 0 resp. slot 1), a 5 ns channel on g1-g0 and a 7 ns channel
-   on g0-g2, a duplicate connect, a self-connect and a query on a transit gate. *)
+   on g0-g2, a self-connect, a query on a transit gate and an echo rule at g2. *)
 Example C08_nonvacuous :
   let ops := [Connect 0 1 (Some 5); Connect 2 0 (Some 7); Connect 3 1 None; Connect 1 0 None; Connect 2 2 None;
-              PathIter 3; PathIter 2; PathIter 0; Kind 1; NextGate 3; PathEnd 3; Send 3 10 0; Send 2 0 4] in
+              PathIter 3; PathIter 2; PathIter 0; Kind 1; NextGate 3; PathEnd 3; Send 3 10 0 0; Relay 2 2 1; Send 2 0 4 0; Send 3 0 0 2] in
   let r := exec (init [0; 1; 2; 0]) ops in
   snd r = [OUnit; OUnit; OUnit; OUnit; OPanic 1;
            OIter (Some [{| endpoint := 1; endpoint_id := S1; channel := None |};
@@ -159,8 +186,11 @@ Example C08_nonvacuous :
            OIter (Some [{| endpoint := 0; endpoint_id := S1; channel := Some 7 |};
                         {| endpoint := 1; endpoint_id := S0; channel := Some 5 |};
                         {| endpoint := 3; endpoint_id := S0; channel := None |}]);
-           OIter None; OKind Transit; ONext (Some 1); OEnd (Some 2); OSent; OSent] /\
-  map (send_one (sgates (fst r))) (sends_of (sgates (fst r)) ops) =
-    [SDelivered {| d_to := 2; d_time := 22; d_sender := 0; d_receiver := 2; d_last := 2 |};
-     SDelivered {| d_to := 0; d_time := 16; d_sender := 2; d_receiver := 0; d_last := 3 |}].
+           OIter None; OKind Transit; ONext (Some 1); OEnd (Some 2); OSent; ORule; OSent; OSent] /\
+  map (send_one (sgates (fst r)) (rules_of (sgates (fst r)) ops)) (sends_of (sgates (fst r)) ops) =
+    [[(0, SDelivered {| d_to := 2; d_time := 22; d_sender := 0; d_receiver := 2; d_last := 2 |})];
+     [(0, SDelivered {| d_to := 0; d_time := 16; d_sender := 2; d_receiver := 0; d_last := 3 |})];
+     (* budget 2: m0 sends on g3, m2 echoes the received object back on g2 after 1 ns (sender = m2), no rule at g3 *)
+     [(0, SDelivered {| d_to := 2; d_time := 12; d_sender := 0; d_receiver := 2; d_last := 2 |});
+      (1, SDelivered {| d_to := 0; d_time := 25; d_sender := 2; d_receiver := 0; d_last := 3 |})]].
 Proof. vm_compute. split; reflexivity. Qed.
